@@ -44,6 +44,7 @@ def stream_perm(chk, i, rng):
     ms2, _ = gemlib.run_model(chk, obj, ovo, g.epsilon, P2, A2, calls2)
     if not c01.close(ms2, s2, s2, tol=1e-8):
         chk.fail(f"perm:model-mismatch:{obj}", f"{label}: model {ms2!r} vs implementation {s2!r} on the permuted input", replay)
+    chk.sample({"stream": "perm", "gemini": label, "n": n, "K": K, "mode": mode, "affinity": akind, "ps": ps.tolist(), "pk": pk.tolist(), "score": s})
     chk.dist[f"perm:{obj}:{'ovo' if ovo else 'ova'}"] += 1
     nontriv = not (np.array_equal(ps, np.arange(n)) and np.array_equal(pk, np.arange(K)))
     chk.count(("perm", label, n, K, mode, akind) if nontriv else None)
@@ -66,6 +67,7 @@ def stream_empty(chk, i, rng):
         chk.fail(f"empty:score:{obj}:{'ovo' if ovo else 'ova'}", f"{label}: score {s!r} becomes {s2!r} after adding an empty cluster", replay, layer="L3")
     if not np.isfinite(s2) or not np.isfinite(gr2).all():
         chk.fail(f"empty:nonfinite:{obj}", f"{label}: non-finite result with an empty cluster", replay, layer="L3")
+    chk.sample({"stream": "empty", "gemini": label, "n": n, "K": K, "mode": mode, "score": s, "score_with_empty_cluster": s2}, limit=6)
     chk.dist[f"empty:{obj}:{'ovo' if ovo else 'ova'}"] += 1
     chk.count(("empty", label, n, K, mode, akind))
 
